@@ -128,6 +128,30 @@ CATALOGUE = [
     ("C17", "string expressions keep the namespace of the first datum", "histogrammar/util.py", "                def function(datum):\n                    context = dict(globals())",
      "                _ctx = {}\n\n                def function(datum):\n                    context = _ctx if _ctx else dict(globals())\n                    _ctx.update(context)", 2500),
     ("C17", "CachedFcn treats a one-row batch like its row", "histogrammar/util.py", "        if type(x) is not type(y):\n            return False\n", "", 4000),
+    # round 3: single-site versions of what the independent seeded changes of that round needed
+    ("C09", "Stack.__eq__ compares thresholds with == (NaN thresholds of Stack.build)", "histogrammar/primitives/stack.py",
+     "numeq(c1, c2) and v1 == v2", "c1 == c2 and v1 == v2", 4000),
+    ("C09", "numeq rounds 64-bit integers to doubles", "histogrammar/util.py", "    return x == y\n", "    return float(x) == float(y)\n", 8000),
+    ("C10", "SparselyBin.__add__ compares binWidth with numeq (tolerance knob)", "histogrammar/primitives/sparselybin.py",
+     "            if self.binWidth != other.binWidth:", "            if not numeq(self.binWidth, other.binWidth):", 5000),
+    ("C17", "named() renames a CachedFcn in place", "histogrammar/util.py", "    if isinstance(fcn, CachedFcn):\n        return CachedFcn(fcn.expr, name)",
+     "    if isinstance(fcn, CachedFcn):\n        fcn.name = name\n        return fcn", 1500),
+    ("C06", "named() renames a CachedFcn in place (seen by the alias hunt)", "histogrammar/util.py",
+     "    if isinstance(fcn, CachedFcn):\n        return CachedFcn(fcn.expr, name)", "    if isinstance(fcn, CachedFcn):\n        fcn.name = name\n        return fcn", 16000),
+    ("C17", "CachedFcn trusts identity of its argument (buffer reuse)", "histogrammar/util.py", "        if type(x) is not type(y):\n            return False\n",
+     "        if x is y:\n            return True\n        if type(x) is not type(y):\n            return False\n", 4000),
+    ("C17", "CachedFcn keeps a reference to its arguments", "histogrammar/util.py", "            self.lastArgs = copy.deepcopy(args)\n", "            self.lastArgs = args\n", 6000),
+    ("C14", "Select.fill.numpy cleans the cut before weighting it (inf * 0)", "histogrammar/primitives/select.py",
+     "        w = w * weights\n        w[numpy.isnan(w)] = 0.0\n        w[w < 0.0] = 0.0\n",
+     "        w = numpy.array(w, dtype=numpy.float64)\n        w[numpy.isnan(w)] = 0.0\n        w[w < 0.0] = 0.0\n        w = w * weights\n", 2000),
+    ("C02", "TwoDimensionallySparselyHistogram uses xorigin for y", "histogrammar/convenience.py", "Count.ing(), Count.ing(), yorigin)", "Count.ing(), Count.ing(), xorigin)", 16000),
+    ("C06", "Bin shares the underflow template passed to its constructor", "histogrammar/primitives/bin.py", "        self.underflow = underflow.copy()",
+     "        self.underflow = underflow if type(underflow).__name__ == 'Bag' else underflow.copy()", 16000),
+    ("C16", "a reloaded root is never walked for cross references", "histogrammar/defs.py",
+     "            return Factory.registered[name].fromJsonFragment(json[\"data\"], None)",
+     "            out = Factory.registered[name].fromJsonFragment(json[\"data\"], None)\n            out._checkedForCrossReferences = True\n            return out", 20000),
+    ("C12", "string expressions keep the fields of earlier records", "histogrammar/util.py", "                def function(datum):\n                    context = dict(globals())",
+     "                context = dict(globals())\n\n                def function(datum):", 6000),
 ]
 
 
